@@ -9,10 +9,14 @@ KNOWN = [("C12-P-write-thrift-unchecked-dict-cast", re.compile(r"^write_thrift\.
 
 
 def p_thriftvals(ctx):
-    for a in c12_thriftvals.ASSUMED:
+    for a in c12_thriftvals.ASSUMED + c12_thriftvals.TEXT_ASSUMED:
         if a not in ctx.assumptions:
             ctx.assumptions.append(a)
-    res = c12_thriftvals.check(ctx)
+    for res in (c12_thriftvals.check(ctx), c12_thriftvals.check_text(ctx)):
+        _record(ctx, res)
+
+
+def _record(ctx, res):
     for name in res.order:
         st = res.status(name)
         e = next((x for x in res.d[name] if x[0] == st), res.d[name][0])
